@@ -46,6 +46,16 @@ def build(prop, race=False):
         infra("cannot prepare go.sum: %s" % ex)
     out = os.path.join(BIN, "sim-%s%s.test" % (prop, "-race" if race else ""))
     cmd = [GO, "test", "-tags", "verif", "-c", "-o", out]
+    alt = os.environ.get("VERIF_REPO")
+    if alt:
+        # sensitivity testing only: build the simulator against a scratch copy of the repository
+        tag = str(abs(hash(alt)) % 100000)
+        modfile = os.path.join(BIN, "alt-%s.mod" % tag)
+        mod = open(os.path.join(SIM, "go.mod")).read().replace("=> /repo", "=> " + alt)
+        open(modfile, "w").write(mod)
+        shutil.copy(os.path.join(SIM, "go.sum"), os.path.join(BIN, "alt-%s.sum" % tag))
+        out = os.path.join(BIN, "sim-%s%s-alt%s.test" % (prop, "-race" if race else "", tag))
+        cmd = [GO, "test", "-modfile=" + modfile, "-tags", "verif", "-c", "-o", out]
     if race:
         cmd.append("-race")
     cmd.append(".")
@@ -116,7 +126,7 @@ def main():
         e = env_base()
         e.update(VERIF_PROP=prop, VERIF_TIER=tier, VERIF_SEED=str(seed_int), VERIF_WORKER=str(w), VERIF_WORKERS=str(workers),
                  VERIF_RUNS=str(tc["runs"]), VERIF_WALL_S=str(tc["wall"]), VERIF_OUT=os.path.join(outdir, "w%d.json" % w),
-                 VERIF_REPLAY_DIR=os.path.join(VERIF, "replays"))
+                 VERIF_REPLAY_DIR=os.environ.get("VERIF_REPLAY_DIR") or os.path.join(VERIF, "replays"))
         e.pop("VERIF_REPLAY", None)
         log = open(os.path.join(outdir, "w%d.log" % w), "w")
         p = subprocess.Popen([binp, "-test.run", "TestSim", "-test.count=1", "-test.timeout=6h", "-test.cpu", "1"], cwd=SIM, env=e, stdout=log, stderr=subprocess.STDOUT)
@@ -214,7 +224,9 @@ def main():
         "wall_s": round(wall, 2),
         "violations": len(new_viol),
     }
-    json.dump(ev, open(os.path.join(VERIF, "evidence", prop + ".json"), "w"), indent=1)
+    evdir = os.environ.get("VERIF_EVIDENCE_DIR") or os.path.join(VERIF, "evidence")
+    os.makedirs(evdir, exist_ok=True)
+    json.dump(ev, open(os.path.join(evdir, prop + ".json"), "w"), indent=1)
     shutil.rmtree(outdir, ignore_errors=True)
 
     print("property=%s tier=%s seed=%d runs=%d nontrivial=%d distinct=%d steps=%d faults=%d wall=%.1fs" % (
